@@ -119,6 +119,10 @@ pub fn gen_matrix(rng: &mut Rng, ring: &str) -> Value {
             // size is a knob too: one phase-3 run in eight leaves far more than 64 rows to the
             // parallel phase (chunked / batched variants of the loop only differ beyond such sizes)
             let big = rng.chance(1, 8);
+            // very wide: the same structure followed by more than a thousand (nearly) empty columns
+            // (per-row scans that are split up or vectorised only beyond some width); for the
+            // transposed search the same matrix is very tall
+            let pad = if rng.chance(1, 20) { 1024 + rng.below(300) as usize } else { 0 };
             let (m, n) = if big { (70 + rng.below(90) as usize, 10 + rng.below(30) as usize) } else { (6 + rng.below(19) as usize, 5 + rng.below(16) as usize) };
             let dens = if big { *rng.pick(&[10u64, 20, 30]) } else { *rng.pick(&[20u64, 35, 50]) };
             let head_unit = rng.chance(1, 3);
@@ -131,8 +135,11 @@ pub fn gen_matrix(rng: &mut Rng, ring: &str) -> Value {
                     }
                 }
             }
+            for _ in 0..(if pad > 0 { rng.below(4) } else { 0 }) {
+                entries.push(json!([rng.below(m as u64), n + rng.below(pad as u64) as usize, gen_val(rng, ring, 1)]));
+            }
             entries.retain(|e| !is_zero_val(ring, &e[2]));
-            return json!({ "m": m, "n": n, "entries": entries });
+            return json!({ "m": m, "n": n + pad, "entries": entries });
         }
         _ => {
             // block diagonal with dense-ish blocks, permuted
